@@ -80,6 +80,10 @@ Definition pair_step (s : pstate) (t : vtr) : pstate :=
 Definition pair_run (c : nat) (xs : list vtr) : pstate := fold_left pair_step xs (pinit c).
 End Add.
 
+(* sample_from_indices(idxs) = storage[idxs], and memory.sample(..., return_idx=True) rows: a gather *)
+Definition gather (st : list (option cell)) (idx : list nat) : list (option cell) :=
+  map (fun i => nth i st None) idx.
+
 (* ---------- specification side (independent of the loop) ---------- *)
 (* number of transitions of a window that are summed: up to and including the first one in which
    some environment is done, or all of them *)
